@@ -330,9 +330,11 @@ func inlinable(p *ir.Program, nf *newFn, all map[string]*newFn) string {
 	ast.Inspect(d.Body, func(n ast.Node) bool {
 		switch x := n.(type) {
 		case *ast.DeferStmt:
-			why = "defers"
+			if !simpleTopLevelDefer(d, x) {
+				why = "defers"
+			}
 		case *ast.LabeledStmt:
-			why = "has labels"
+			// labels are renamed with the call site's suffix when the body is copied
 		case *ast.BranchStmt:
 			if x.Tok == token.GOTO {
 				why = "goto"
@@ -421,8 +423,7 @@ func inlinable(p *ir.Program, nf *newFn, all map[string]*newFn) string {
 func inlinableShallow(o *newFn) bool {
 	ok := true
 	ast.Inspect(o.decl.Body, func(n ast.Node) bool {
-		switch n.(type) {
-		case *ast.DeferStmt, *ast.LabeledStmt:
+		if ds, isDefer := n.(*ast.DeferStmt); isDefer && !simpleTopLevelDefer(o.decl, ds) {
 			ok = false
 		}
 		return ok
@@ -466,4 +467,31 @@ func splice(fset *token.FileSet, src []byte, from, to token.Pos, repl string) []
 	out.WriteString(repl)
 	out.Write(src[b:])
 	return out.Bytes()
+}
+
+
+// simpleTopLevelDefer: the defer is a statement of the function body itself (not nested), defers a call without arguments
+// on a selector (mu.Unlock(), mu.RUnlock(), wg.Done()), and no return precedes it. Such a function is inlined with the
+// deferred call made explicitly at every exit (panics aside, that is what the defer does).
+func simpleTopLevelDefer(d *ast.FuncDecl, x *ast.DeferStmt) bool {
+	top := false
+	for _, st := range d.Body.List {
+		if st == ast.Stmt(x) {
+			top = true
+		}
+	}
+	if !top || len(x.Call.Args) != 0 {
+		return false
+	}
+	if _, ok := x.Call.Fun.(*ast.SelectorExpr); !ok {
+		return false
+	}
+	early := false
+	ast.Inspect(d.Body, func(n ast.Node) bool {
+		if r, ok := n.(*ast.ReturnStmt); ok && r.Pos() < x.Pos() {
+			early = true
+		}
+		return true
+	})
+	return !early
 }
